@@ -504,6 +504,20 @@ def make_graph_node(ctx: Ctx, spec: dict, flavour: str):
         inner = make_graph(ctx, spec["graph"], flavour)
     gn = inner.as_node(name=spec["name"]) if spec.get("name") else inner.as_node()
     m = spec.get("map")
+    if m and m.get("warm"):
+        # the node is first configured with ANOTHER map_over, executed once in a graph of its own, and only then re-configured:
+        # nothing remembered from the first configuration may survive
+        import copy as _copy
+
+        from hypergraph import SyncRunner
+
+        gn = _map_over(gn, {"params": m["warm"]["params"], "mode": "zip", "error_handling": "continue"})
+        saved = list(ctx.log)
+        try:
+            SyncRunner().run(Graph([gn]), _copy.deepcopy(m["warm"]["values"]), error_handling="continue")
+        except Exception:  # noqa: BLE001 - the warm-up run's own outcome is irrelevant
+            pass
+        ctx.log[:] = saved
     if m and m.get("before_renames"):
         gn = _map_over(gn, m)
     gn = apply_renames(gn, spec)
